@@ -33,7 +33,8 @@ RULE = (
     'list specification, list result compared with the single-combination runs), multi_auto (2..6 peaks, scalar window, '
     'extra estimates outside the data, separation factors), multi_explicit (every assignment of a window menu '
     '{good, narrow, empty, outside, overlapping} to the peaks; full run vs every singleton and leave-one-out run), '
-    'requirements (grid of FitRequirements), remove (real fits and hand-built results of every assessment).  '
+    'requirements (grid of FitRequirements), remove (real fits and hand-built results of every assessment, each at intensity scales 1e-12 .. 1e6; the fits '
+    'at different scales are compared with each other), multi_explicit also with model lists on spectra whose peaks prefer different models.  '
     'A scenario is non-trivial when fit_peaks/remove_peaks returned and at least one result was judged against the '
     'reference; distinct = distinct canonical scenario dictionaries'
 )
@@ -58,7 +59,8 @@ REQUIRED_CLASSES = [
     'stats_recomputed', 'requirements_checked', 'auto_windows_ok', 'auto_window_clipped', 'auto_window_separated',
     'independent_of_other_peaks', 'list_first_success', 'list_none_successful', 'spec_instance', 'spec_list',
     'removal_checked', 'removal_with_overlap', 'removal_upper_bound_on_point', 'removal_lower_bound_on_point', 'removal_window_ends_at_last_point',
-    'removal_adjacent_windows_share_point', 'removal_variances_refused', 'removal_ignores_failures',
+    'removal_adjacent_windows_share_point', 'removal_of_peak_with_tiny_amplitude', 'rescaling_equivariant', 'independence_with_model_lists',
+    'list_order_carry_over_would_show', 'removal_variances_refused', 'removal_ignores_failures',
     'estimate_outside_data', 'window_with_fewer_points_than_parameters', 'input_window_empty', 'input_window_too_few_points',
     'input_window_enough_points',
 ]
@@ -95,8 +97,14 @@ def build_spectrum(spec):
     t = (x - x[0]) / (x[-1] - x[0])
     if spec['bg'] == 'linear':
         y = 100.0 + 40.0 * t
-    else:
+    elif spec['bg'] == 'quadratic':
         y = 100.0 + 40.0 * t - 60.0 * t * t
+    elif spec['bg'] == 'curved_left':  # strongly curved below t = 0.45, straight above: peaks prefer different backgrounds
+        y = 100.0 + 40.0 * t + 12000.0 * np.clip(0.45 - t, 0.0, None) ** 2
+    elif spec['bg'] == 'curved_right':
+        y = 100.0 + 40.0 * t + 12000.0 * np.clip(t - 0.55, 0.0, None) ** 2
+    else:
+        raise ValueError(spec['bg'])
     truth = []
     for pk in spec['peaks']:
         idx = int(round(pk['pos'] * (n - 1)))
@@ -117,6 +125,11 @@ def build_spectrum(spec):
         truth.append({'shape': shape, 'loc': loc, 'scale': scale, 'amplitude': amp, 'idx': idx, 'step': step})
     var = y.copy()
     y = y + np.sqrt(var) * pf.noise(n, spec.get('noise', 0))
+    ys = spec.get('yscale', 1.0)  # intensity scale of the data (normalised patterns): same relative errors
+    if ys != 1.0:
+        y, var = y * ys, var * ys * ys
+        for tr in truth:
+            tr['amplitude'] *= ys
     return x, y, var, truth
 
 
@@ -223,6 +236,16 @@ def cases(tier):
                 pk = [{'shape': 'gaussian', 'width': 2.0, 'pos': p} for p in lay]
                 spec = {'grid': 'u101', 'bg': 'linear', 'noise': 0, 'peaks': pk}
                 out.append({'kind': 'multi_explicit', 'spectrum': spec, 'windows': list(assign), 'frac': frac, 'background': 'linear', 'peak': 'gaussian'})
+    # multi_explicit with model lists on spectra whose peaks prefer different models ---------------------
+    list_specs = [(['linear', 'quadratic'], 'gaussian'), (['linear', 'quadratic'], ['gaussian', 'lorentzian']), (['quadratic', 'linear'], ['gaussian', 'lorentzian']),
+                  (['linear', 'quadratic'], ['lorentzian', 'gaussian']), ('linear', ['lorentzian', 'gaussian']), (['inst:poly1', 'quadratic'], ['lorentzian', 'inst:gaussian'])]
+    for bgname, lay_shapes in itertools.product(('curved_left', 'curved_right'), ((('gaussian', 0.22, 300.0), ('gaussian', 0.72, 300.0)), (('lorentzian', 0.22, 300.0), ('gaussian', 0.72, 60.0)), (('gaussian', 0.2, 300.0), ('lorentzian', 0.5, 300.0), ('gaussian', 0.8, 300.0)))):
+        if not th and bgname == 'curved_right' and len(lay_shapes) == 3:
+            continue
+        pk = [{'shape': sh, 'width': 2.0, 'pos': pos, 'height': h} for sh, pos, h in lay_shapes]
+        spec = {'grid': 'u101', 'bg': bgname, 'noise': 0, 'peaks': pk}
+        for bs, ps_ in list_specs:
+            out.append({'kind': 'multi_explicit', 'spectrum': spec, 'windows': ['good'] * len(pk), 'frac': 0.5, 'background': bs, 'peak': ps_})
     # requirements ----------------------------------------------------------------------
     for shape, width in itertools.product(('gaussian', 'lorentzian'), (0.5, 2.0, 6.0)):
         spec = {'grid': 'u101', 'bg': 'linear', 'noise': 0, 'peaks': [{'shape': shape, 'width': width, 'pos': 0.5}]}
@@ -234,11 +257,12 @@ def cases(tier):
         for g in ('u101', 'n200'):
             spec = {'grid': g, 'bg': 'linear', 'noise': 0, 'peaks': pk}
             for w in (12.0, 40.0, 'full'):
-                out.append({'kind': 'remove_fitted', 'spectrum': spec, 'width': w, 'background': 'linear', 'peak': ['gaussian', 'lorentzian']})
+                out.append({'kind': 'remove_fitted', 'spectrum': spec, 'width': w, 'background': 'linear', 'peak': ['gaussian', 'lorentzian'], 'yscales': [1.0, 1e-12, 2.0**-40, 1e6]})
     assessments = [a.name for a in FitAssessment]
     for shape in ('gaussian', 'lorentzian', 'pseudo_voigt'):
         for layout, g in itertools.product(('disjoint', 'overlap', 'nested', 'empty', 'outside', 'on_points', 'upper_on_point', 'lower_on_point', 'to_data_ends', 'whole_range'), ('u101', 'n200')):
-            out.append({'kind': 'remove_synthetic', 'shape': shape, 'layout': layout, 'grid': g, 'assessments': assessments})
+            for ys in (1.0, 1e-12, 1e6):
+                out.append({'kind': 'remove_synthetic', 'shape': shape, 'layout': layout, 'grid': g, 'yscale': ys, 'assessments': assessments})
     return out
 
 
@@ -601,6 +625,27 @@ def run_multi_explicit(case, rec):
                 rec.viol(SITE_FIT, 'depends_on_other_peaks', f'result of peak {j} differs between the full run and the run with estimates {list(idx)}: {full[j].assessment.name} vs {r.assessment.name}', index=j, subset=list(idx), **sub)
     if compared and same:
         rec.cls('independent_of_other_peaks')
+    cs = combos(case['background'], case['peak'])
+    if len(cs) > 1 and full is not None:
+        rec.cls('independence_with_model_lists')
+        # non-vacuity: is this a scenario in which a try order carried over from an earlier peak would show?
+        # (an earlier peak fails with the first combination and succeeds with a later one which a later peak
+        # also succeeds with, while the later peak alone succeeds with an earlier combination)
+        table = []
+        for i in range(n):
+            row = []
+            for b, p in cs:
+                r1 = run_fit(rec, data, x, [est[i]], explicit_windows([wins[i]]), b, p, fp, fr, sub={**sub, 'subset': [i], 'combo': [b, p]}, explicit=[tuple(wins[i])])
+                row.append(r1 is not None and r1[0].assessment == FitAssessment.success)
+            table.append(row)
+        for i in range(n - 1):
+            first_i = next((k for k, ok in enumerate(table[i]) if ok), None)
+            if first_i in (None, 0):
+                continue
+            for j in range(i + 1, n):
+                first_j = next((k for k, ok in enumerate(table[j]) if ok), None)
+                if first_j is not None and first_j < first_i and table[j][first_i]:
+                    rec.cls('list_order_carry_over_would_show')
 
 
 def run_requirements(case, rec):
@@ -686,29 +731,72 @@ def judge_removal(rec, x, y, results, sub, as_iterator=False):
 
 
 def run_remove_fitted(case, rec):
-    x, y, var, truth = build_spectrum(case['spectrum'])
-    data = data_array(x, y, var)
-    est = [t['loc'] for t in truth]
-    wv = scalar_width(x, case['width'], truth[0]['step'])
-    sub = {'width': wv}
-    res = run_fit(rec, data, x, est, sc.scalar(wv, unit=XUNIT), case['background'], case['peak'], None, None, sub=sub)
-    if res is None:
-        return
     km = k_min(case['background'], case['peak'])
-    for i, r in enumerate(res):
-        judge_result(rec, r, x, y, var, kmin=km, reqs=FitRequirements(), sub={**sub, 'index': i})
-    judge_removal(rec, x, y, res, sub)
-    judge_removal(rec, x, y, list(reversed(res)), {**sub, 'order': 'reversed'})
-    judge_removal(rec, x, y, res, {**sub, 'order': 'iterator'}, as_iterator=True)
-    rec.nontrivial += 1
+    reference = None
+    for ys in case.get('yscales', [1.0]):
+        x, y, var, truth = build_spectrum({**case['spectrum'], 'yscale': ys})
+        data = data_array(x, y, var)
+        est = [t['loc'] for t in truth]
+        wv = scalar_width(x, case['width'], truth[0]['step'])
+        sub = {'width': wv, 'yscale': ys}
+        res = run_fit(rec, data, x, est, sc.scalar(wv, unit=XUNIT), case['background'], case['peak'], None, None, sub=sub)
+        if res is None:
+            continue
+        for i, r in enumerate(res):
+            judge_result(rec, r, x, y, var, kmin=km, reqs=FitRequirements(), sub={**sub, 'index': i})
+        judge_removal(rec, x, y, res, sub)
+        judge_removal(rec, x, y, list(reversed(res)), {**sub, 'order': 'reversed'})
+        judge_removal(rec, x, y, res, {**sub, 'order': 'iterator'}, as_iterator=True)
+        if any(r.success and abs(float(r.popt['peak_amplitude'].value)) < 1e-8 for r in res):
+            rec.cls('removal_of_peak_with_tiny_amplitude')
+        if ys == 1.0:
+            reference = res
+        elif reference is not None:
+            judge_rescaling(rec, reference, res, ys, sub)
+        rec.nontrivial += 1
 
 
-def _synthetic_result(shape, assessment, loc, scale, lo, hi):
+def judge_rescaling(rec, ref_results, results, ys, sub):
+    """Data and standard deviations multiplied by ys: the same fit problem in another unit of intensity.
+    Demanded only to the optimiser's own tolerance and only of fits successful at both scales."""
+    ok = True
+    for i, (a, b) in enumerate(zip(ref_results, results, strict=True)):
+        rec.validated += 1
+        # Where the optimiser ends on a poorly described window depends on the scaling of the parameters (scipy's trust
+        # region is not scale invariant), so only fits that found an acceptable description at both scales are compared.
+        if not (a.success and b.success and type(a.peak) is type(b.peak) and a.background.degree == b.background.degree):
+            rec.cls('rescaling_not_judged')
+            continue
+        pa, pb = float(a.p_value.value), float(b.p_value.value)
+        # parameters: the optimiser stops at a relative cost change of 1e-8, i.e. anywhere within a small fraction of
+        # the parameter's own standard error of the minimum; that is all that can be demanded
+        for name in a.popt:
+            va, vb = float(a.popt[name].value), float(b.popt[name].value)
+            factor = ys if name == 'peak_amplitude' or name.startswith('bkg_') else 1.0
+            var_a = a.popt[name].variance
+            if var_a is None or not math.isfinite(float(var_a)):
+                continue
+            want = va * factor
+            if not abs(vb - want) <= 0.05 * math.sqrt(float(var_a)) * factor + 1e-6 * abs(want):
+                ok = False
+                rec.viol(SITE_FIT, 'depends_on_intensity_scale', f'peak {i}: {name} = {va!r} +- {math.sqrt(float(var_a))!r} at scale 1 but {vb!r} at scale {ys!r} (expected {want!r})', index=i, parameter=name, **sub)
+        ra, rb = float(a.red_chisq.value), float(b.red_chisq.value)
+        if math.isfinite(ra) and not abs(rb - ra) <= 1e-5 * abs(ra):
+            ok = False
+            rec.viol(SITE_FIT, 'depends_on_intensity_scale', f'peak {i}: red_chisq = {ra!r} at scale 1 but {rb!r} at scale {ys!r}', index=i, parameter='red_chisq', **sub)
+        if math.isfinite(pa) and not abs(pb - pa) <= 1e-4:
+            ok = False
+            rec.viol(SITE_FIT, 'depends_on_intensity_scale', f'peak {i}: p_value = {pa!r} at scale 1 but {pb!r} at scale {ys!r}', index=i, parameter='p_value', **sub)
+    if ok:
+        rec.cls('rescaling_equivariant')
+
+
+def _synthetic_result(shape, assessment, loc, scale, lo, hi, ys=1.0):
     cls = {'gaussian': M.GaussianModel, 'lorentzian': M.LorentzianModel, 'pseudo_voigt': M.PseudoVoigtModel}[shape]
     popt = {
-        'bkg_a0': sc.scalar(100.0, unit=YUNIT),
-        'bkg_a1': sc.scalar(-2.0, unit=sc.Unit(YUNIT) / sc.Unit(XUNIT)),
-        'peak_amplitude': sc.scalar(50.0, unit=sc.Unit(YUNIT) * sc.Unit(XUNIT)),
+        'bkg_a0': sc.scalar(100.0 * ys, unit=YUNIT),
+        'bkg_a1': sc.scalar(-2.0 * ys, unit=sc.Unit(YUNIT) / sc.Unit(XUNIT)),
+        'peak_amplitude': sc.scalar(50.0 * ys, unit=sc.Unit(YUNIT) * sc.Unit(XUNIT)),
         'peak_loc': sc.scalar(loc, unit=XUNIT),
         'peak_scale': sc.scalar(scale, unit=XUNIT),
     }
@@ -723,7 +811,8 @@ def _synthetic_result(shape, assessment, loc, scale, lo, hi):
 
 def run_remove_synthetic(case, rec):
     x = grid(case.get('grid', 'u101'))
-    y = 100.0 - 2.0 * x + 3.0 * pf.noise(len(x), 11)
+    ys = case.get('yscale', 1.0)
+    y = (100.0 - 2.0 * x + 3.0 * pf.noise(len(x), 11)) * ys
     layout = case['layout']
     n = len(x)
 
@@ -748,13 +837,15 @@ def run_remove_synthetic(case, rec):
         'whole_range': [(float(x[0]), float(x[-1]), at(0.5)), (at(0.5), float(x[-1]), at(0.8))],
     }[layout]
     shape = case['shape']
-    sub = {'layout': layout, 'grid': case.get('grid', 'u101')}
+    sub = {'layout': layout, 'grid': case.get('grid', 'u101'), 'yscale': ys}
+    if abs(50.0 * ys) < 1e-8:
+        rec.cls('removal_of_peak_with_tiny_amplitude')
     # every pair of assessments on the two windows
     names = case['assessments']
     for a0, a1 in itertools.product(names, repeat=2):
         if a0 != 'success' and a1 != 'success' and (a0, a1) != (names[1], names[2]):
             continue  # one representative without any success
-        res = [_synthetic_result(shape, a, loc, 0.03 * span, lo, hi) for a, (lo, hi, loc) in zip((a0, a1), wins, strict=True)]
+        res = [_synthetic_result(shape, a, loc, 0.03 * span, lo, hi, ys) for a, (lo, hi, loc) in zip((a0, a1), wins, strict=True)]
         judge_removal(rec, x, y, res, {**sub, 'assessments': [a0, a1]})
     judge_removal(rec, x, y, [], {**sub, 'assessments': []})
     rec.nontrivial += 1
